@@ -35,6 +35,8 @@ def main():
     if a.case:
         orig = mod.cases
         mod.cases = lambda tier: [c for c in orig(tier) if a.case in c.name]
+        # a partial run must not overwrite the property's evidence file
+        os.environ.setdefault("VERIF_EVIDENCE_DIR", os.path.join(VERIF, ".scratch-probes", "evidence"))
     seed = int(os.environ.get("VERIF_SEED", "0") or 0)
     import dali
     if not os.path.abspath(dali.__file__).startswith(os.path.abspath(REPO) + os.sep):
